@@ -1,6 +1,7 @@
 import CedarVerif.Cedar.SymCC
 import CedarVerif.Cedar.SymCompile
 import CedarVerif.Lemmas.SymCompile
+import CedarVerif.Lemmas.SymCType
 import CedarVerif.Thm.C01
 /-
 C18 — Symbolic compilation agrees with evaluation on concrete (literal) environments.
@@ -21,7 +22,11 @@ PROVED HERE FOR A FRAGMENT OF THE COMPILER (`Cedar.SymC`, Cedar/SymCompile.lean;
 option_get is_none is_some if_false if_some record_get`, with `App` nodes and every non-literal branch kept, record
 terms and record term types, and the `Record` arm of `Term::from_value` for a flat context type, `ctxTermOf`):
   first fragment `SFrag` = bool / long / string / entity literals, `principal action resource`,
-  `! - && || if == < <= + - *`;  second fragment `SFrag2` = `SFrag` + `context`, `e.a`, `e has a` on RECORD-typed terms.
+  `! - && || if == < <= + - *`;  second fragment `SFrag2` = `SFrag` + `context`, `e.a`, `e has a` on RECORD-typed terms
+  + (third round) `e like pat` on string-typed terms and `e is T` on entity-typed terms (`compile_like`, factory
+  `string_like` with the evaluator's wildcard match, `compile_is`; both wrapped in `if_some(operand, …)`, which is what
+  symcc/compiler.rs AND symccopt/compiler.rs do — stream c18symc observes symccopt through
+  `CompiledPolicy::compile_with_custom_symenv`; an erroring operand gives `none`).  All `SFrag2` theorems cover them.
   * `compile_correct_fragment2`: on the literal environment of `req` whose context term represents the FLAT context
     (`CtxOK`: required attribute ↦ literal, optional present ↦ `some literal`, optional absent ↦ `none ty`, primitive
     attribute values only), if the compiler ACCEPTS `e ∈ SFrag2` the term it builds is the folded literal
@@ -33,18 +38,30 @@ terms and record term types, and the `Record` arm of `Term::from_value` for a fl
     `NoSuchAttribute`) or accepts and folds because a constant guard / short-circuit drops the ill-typed part
     (`false && (1 + true)` ↦ `some false`, `1 == "a"` ↦ `some false`, `if 1 < 2 then 1 else true` ↦ `some 1`,
     `context has zz` ↦ `some false`); an entity literal outside the schema's types / enum members is rejected although
-    evaluate succeeds.  These are `example`s; NO theorem characterises when the compiler rejects (`compile_rejects_iff`
-    is not stated), and "a fragment expression never yields the model-only error `.outside`" is false for `SFrag2`
-    (`principal.a` is in `SFrag2` syntactically and gives `.outside`: attribute access on entity-typed terms is not modelled;
-    the theorem's hypothesis `hc` excludes it, the driver prints `(outside-model)`).
+    evaluate succeeds.
+  * `compile_rejects_iff` / `compile_typeOf_ctype` (THIRD ROUND; `ctype`, `ctype_spec` in Lemmas/SymCType.lean): WHEN the
+    compiler rejects is now characterised exactly.  `ctype` is the compiler's OWN typing discipline (the checks of
+    compile_app1/app2/reducible_eq/if/and/or/attrs_of/has_attr/get_attr on term types — not the validator's); on the literal
+    environment (same hypothesis `hctx` about the context term) and for every `e ∈ SFrag2`: `compile` returns error `err`
+    (`TypeError` / `NoSuchAttribute` / the model-only `.outside`) iff `ctype e = .error err`, accepts iff `ctype e = .ok ty`,
+    and then the term has type `ty`.  The discipline is NOT purely type-directed: `if / && / ||` skip the checks on the
+    operand a constant guard discards, and the guard is constant exactly when `evaluate` gives a boolean — `ctype` reads
+    that one bit (`guardConst (evaluate …)`) and nothing else from the concrete semantics.  The examples
+    (`false && (1 + true)` accepted, `(MAX+1) + true` rejected) are re-derived from it.  "A fragment expression never
+    yields `.outside`" remains false for `SFrag2` (`principal.a` gives `.outside`: attribute access on entity-typed terms is
+    not modelled; `ctype` says exactly when: `.`/`has` applied to an entity-typed operand in a checked position).
   * `compilePolicy_discharged`, `vc_skeleton_correct_fragment`: for policies whose conditions are in `SFrag2`, the
     compile contract (`compilePolicy`) is what the modelled compiler produces, so `vc_skeleton_correct` holds with the
     enforcer assumption `hEnf` and the context representation `hctx` as the only hypotheses.
-  * NOT PROVED: that `ctxTermOf` (the symbolizer's record arm) satisfies `CtxOK` for every conformant flat context
-    (shown on an example; the driver computes the context term with `ctxTermOf`, so the differential run checks it).
+  * `ctxTermOf_ctxOK`, `compile_correct_fragment2_conformant` (THIRD ROUND): `ctxTermOf` (the symbolizer's record arm)
+    never fails on and satisfies `CtxOK` for EVERY flat context whose attributes are all declared by the flat context type
+    and carry primitive values (`FlatConforms`, implied by schema conformance), so `hctx` is discharged for conformant
+    requests.
 
-STILL NOT PROVED, NOT MODELLED: the compiler outside `SFrag2` (attributes / `has` on entities, `in`, tags, sets, record
-literals, nested-record / set-typed context attributes, `like`, `is`, extension functions), symccopt/compiler.rs'
+STILL NOT PROVED, NOT MODELLED: the compiler outside `SFrag2` (attributes / `has` on entities, `in`, tags, SETS — set
+literal terms, `contains/containsAll/containsAny/isEmpty`, set `==` with the factory's `set_member/set_subset/
+set_intersects` folding: not started, there is no `SFrag3` —, record literals, nested-record / set-typed context
+attributes, extension functions), symccopt/compiler.rs'
 footprint, the rest of the symbolizer (`SymEnv::from_concrete_env`) and the enforcer.  There the contract is *sampled* by
 the differential run of `./check C18` (harness/src/c18.rs: real `SymEnv::from_concrete_env`, both compilers, the real
 evaluator and authorizer); the fragment itself is additionally checked line by line against the Rust compiler by stream
@@ -442,6 +459,68 @@ theorem compile_correct_fragment2 (req : Request) (es : Entities) (senv : SlotEn
   · rw [hev]; exact ⟨ty, rfl⟩
   · rw [hev]; exact Or.inr ⟨rfl, rfl⟩
 
+/-- `ctxTermOf` (the mirror of the `Record` arm of `Term::from_value`) never fails on, and yields a term satisfying
+    `CtxOK` for, EVERY flat context all of whose attributes are declared by the flat context type `attrs` and carry
+    primitive values (`FlatConforms`; implied by conformance of the request to the schema). -/
+theorem ctxTermOf_ctxOK (ctx : List (String × Value)) (attrs : List (Attr × CtxAttrTy × Bool))
+    (hconf : FlatConforms ctx attrs) : ∃ t, ctxTermOf ctx attrs = some t ∧ CtxOK ctx t := by
+  obtain ⟨t, ht, hrec, hfld, hno⟩ := ctxTermOf_spec ctx (fun a v h => (hconf a v h).1) attrs
+  refine ⟨t, ht, hrec, hfld, ?_⟩
+  intro a h
+  cases hl : lookupKV ctx a with
+  | none => rfl
+  | some v => exact absurd (hconf a v hl).2 (hno a h)
+
+/-- `compile_correct_fragment2` with the hypothesis about the context term DISCHARGED for conformant requests: the
+    context term is the one the symbolizer builds (`ctxTermOf`). -/
+theorem compile_correct_fragment2_conformant (req : Request) (es : Entities) (senv : SlotEnv)
+    (etys : List (EntityType × Option (List String))) (attrs : List (Attr × CtxAttrTy × Bool))
+    (hconf : FlatConforms req.context attrs) :
+    ∃ ctxT, ctxTermOf req.context attrs = some ctxT ∧
+      ∀ (e : Expr), SFrag2 e → ∀ t, compile (litEnv2 req etys ctxT) e = .ok t →
+        match evaluate req es senv e with
+        | .ok v => (∃ p, v = .prim p ∧ t = .some (.prim (litPrim p))) ∨ (v = .record req.context ∧ t = .some ctxT)
+        | .error _ => ∃ ty, t = .none ty := by
+  obtain ⟨ctxT, h, hok⟩ := ctxTermOf_ctxOK req.context attrs hconf
+  exact ⟨ctxT, h, fun e hf t hc => compile_correct_fragment2 req es senv etys ctxT (fun _ => hok) e hf t hc⟩
+
+/-! ### WHEN the compiler rejects: its own typing discipline `ctype` (Lemmas/SymCType.lean) -/
+
+/-- soundness of the compiler's typing discipline: an accepted `SFrag2` expression compiles to a term whose type is the
+    one `ctype` computes (always an `option` type). -/
+theorem compile_typeOf_ctype (req : Request) (es : Entities) (senv : SlotEnv)
+    (etys : List (EntityType × Option (List String))) (ctxT : Term)
+    (hctx : ctxT.typeOf.isRecordType = true → CtxOK req.context ctxT)
+    (e : Expr) (hf : SFrag2 e) (t : Term) (hc : compile (litEnv2 req etys ctxT) e = .ok t) :
+    ctype req es senv (litEnv2 req etys ctxT) e = .ok t.typeOf := by
+  rw [← ctype_spec req es senv etys ctxT hctx hf, hc]; rfl
+
+/-- C18, ill-typed inputs: on the literal environment of `req` the compiler's outcome class on an `SFrag2` expression
+    is decided by `ctype` — the mirror of the checks compiler.rs makes (types of the operands of `! - == < <= + - *`,
+    `reducible_eq`, record-typedness and declared attributes for `.`/`has`, `option bool` guards and operands of
+    `if && ||`, equal branch types), where `if / && / ||` skip the checks on the operand a CONSTANT guard discards
+    (the guard is constant exactly when `evaluate` gives a boolean):
+      * it returns the error `err` (`TypeError`, `NoSuchAttribute`; or the model-only `.outside` for `.`/`has` on an
+        entity-typed term) iff `ctype` gives that error;
+      * it accepts iff `ctype` gives a type. -/
+theorem compile_rejects_iff (req : Request) (es : Entities) (senv : SlotEnv)
+    (etys : List (EntityType × Option (List String))) (ctxT : Term)
+    (hctx : ctxT.typeOf.isRecordType = true → CtxOK req.context ctxT) (e : Expr) (hf : SFrag2 e) :
+    (∀ err, compile (litEnv2 req etys ctxT) e = .error err ↔ ctype req es senv (litEnv2 req etys ctxT) e = .error err) ∧
+    ((∃ t, compile (litEnv2 req etys ctxT) e = .ok t) ↔ ∃ ty, ctype req es senv (litEnv2 req etys ctxT) e = .ok ty) := by
+  have h := ctype_spec req es senv etys ctxT hctx hf
+  cases hc : compile (litEnv2 req etys ctxT) e with
+  | error e0 =>
+    rw [hc] at h
+    simp only [resTy] at h
+    rw [← h]
+    exact ⟨fun err => by simp, by simp⟩
+  | ok t =>
+    rw [hc] at h
+    simp only [resTy] at h
+    rw [← h]
+    exact ⟨fun err => by simp, by simp⟩
+
 /-- the first fragment (no `context`): corollary of `compile_correct_fragment2` on the context-less environment `litEnv`
     (its context slot is a non-record dummy, so no hypothesis about the context is needed).  Ill-typed inputs: see the
     examples below — a type error of `evaluate` shows up either as the compiler REJECTING (`.error .typeError`, excluded
@@ -572,6 +651,13 @@ instance decEqCResult : DecidableEq CResult := fun a b =>
   | .ok _, .error _ => isFalse (fun h => by cases h)
   | .error _, .ok _ => isFalse (fun h => by cases h)
 
+instance decEqCTyRes : DecidableEq (Except CErr TermType) := fun a b =>
+  match a, b with
+  | .ok x, .ok y => if h : x = y then isTrue (by rw [h]) else isFalse (fun h' => h (by injection h'))
+  | .error x, .error y => if h : x = y then isTrue (by rw [h]) else isFalse (fun h' => h (by injection h'))
+  | .ok _, .error _ => isFalse (fun h => by cases h)
+  | .error _, .ok _ => isFalse (fun h => by cases h)
+
 def exEtys : List (EntityType × Option (List String)) := [("User", none), ("Doc", none), ("Action", some ["view"])]
 
 /-- `if principal == User::"a" then 1 + 2 < 4 else !(true && false)` -/
@@ -651,6 +737,13 @@ example : CtxOK exReq2.context exCtxT := by
     have h1 : ¬ "m" = a := by intro e; subst e; simp [exCtxT, recFind?] at h
     have h2 : ¬ "n" = a := by intro e; subst e; simp [exCtxT, recFind?] at h
     simp [exReq2, lookupKV, h1, h2]
+example : FlatConforms exReq2.context [("m", .long, false), ("n", .long, true), ("s", .string, false)] := by
+  intro a v h
+  by_cases h1 : a = "m"
+  · subst h1; simp [exReq2, lookupKV] at h; subst h; exact ⟨⟨_, rfl, (by decide : inI64 5 = true)⟩, by simp⟩
+  · by_cases h2 : a = "n"
+    · subst h2; simp [exReq2, lookupKV] at h; subst h; exact ⟨⟨_, rfl, (by decide : inI64 1 = true)⟩, by simp⟩
+    · simp [exReq2, lookupKV, Ne.symm h1, Ne.symm h2] at h
 example : SFrag2 exCtxE := inFrag2_sound _ (by decide +kernel)
 example : compile (litEnv2 exReq2 exEtys exCtxT) exCtxE = .ok (.some (.prim (.bool true))) := by decide +kernel
 example : compile (litEnv2 exReq2 exEtys exCtxT) exCtxS = .ok (.none .bool) := by decide +kernel
@@ -661,6 +754,45 @@ example : compile (litEnv2 exReq2 exEtys exCtxT) (.hasAttr (.var .context) "zz")
 example : compile (litEnv2 exReq2 exEtys exCtxT) (.getAttr (.var .context) "zz") = .error .noSuchAttr := by decide +kernel
 -- attribute access on an entity-typed term is outside the model
 example : compile (litEnv2 exReq2 exEtys exCtxT) (.getAttr (.var .principal) "name") = .error .outside := by decide +kernel
+
+-- the two rejection examples above FOLLOW from `compile_rejects_iff` by computing `ctype` (no compilation):
+-- `false && (1 + true)`: `ctype` accepts (the constant guard `false` discards the ill-typed operand) …
+example : ctype exReq exEs [] (litEnv exReq exEtys)
+    (.and (.lit (.bool false)) (.binaryApp .add (.lit (.int 1)) (.lit (.bool true)))) = .ok (.option .bool) := by
+  decide +kernel
+example : ∃ t, compile (litEnv exReq exEtys)
+    (.and (.lit (.bool false)) (.binaryApp .add (.lit (.int 1)) (.lit (.bool true)))) = .ok t :=
+  ((compile_rejects_iff exReq exEs [] exEtys (.prim (.bool false))
+    (by simp [Term.typeOf, TermPrim.typeOf, TermType.isRecordType]) _
+    (inFrag2_sound _ (by decide +kernel))).2).mpr ⟨.option .bool, by decide +kernel⟩
+-- … `(MAX + 1) + true`: `ctype` rejects (the overflowing operand is not a CONSTANT guard position; `+` checks both types)
+example : compile (litEnv exReq exEtys)
+    (.binaryApp .add (.binaryApp .add (.lit (.int 9223372036854775807)) (.lit (.int 1))) (.lit (.bool true)))
+    = .error .typeError :=
+  ((compile_rejects_iff exReq exEs [] exEtys (.prim (.bool false))
+    (by simp [Term.typeOf, TermPrim.typeOf, TermType.isRecordType]) _
+    (inFrag2_sound _ (by decide +kernel))).1 _).mpr (by decide +kernel)
+-- `context.zz` (undeclared): `NoSuchAttribute`;  `principal.name`: outside the model — both read off `ctype`
+example : ctype exReq2 exEs [] (litEnv2 exReq2 exEtys exCtxT) (.getAttr (.var .context) "zz") = .error .noSuchAttr := by
+  decide +kernel
+example : ctype exReq2 exEs [] (litEnv2 exReq2 exEtys exCtxT) (.getAttr (.var .principal) "name") = .error .outside := by
+  decide +kernel
+example : ctype exReq2 exEs [] (litEnv2 exReq2 exEtys exCtxT) exCtxE = .ok (.option .bool) := by decide +kernel
+
+-- `like` / `is` (in `SFrag2` since the third round): folded by `string_like` / `compile_is`, `none` on an erroring operand,
+-- `TypeError` on an operand of another type
+example : SFrag2 (.like (.lit (.string "x y")) [.char 'x', .star]) := inFrag2_sound _ (by decide +kernel)
+example : compile (litEnv exReq exEtys) (.like (.lit (.string "x y")) [.char 'x', .star]) = .ok (.some (.prim (.bool true))) := by
+  decide +kernel
+example : compile (litEnv exReq exEtys) (.like (.lit (.string "x*")) [.char 'x', .char '*', .char 'z']) = .ok (.some (.prim (.bool false))) := by
+  decide +kernel
+example : compile (litEnv exReq exEtys) (.like (.lit (.int 1)) [.star]) = .error .typeError := by decide +kernel
+example : compile (litEnv2 exReq2 exEtys exCtxT) (.like (.getAttr (.var .context) "s") [.star]) = .ok (.none .bool) := by
+  decide +kernel
+example : compile (litEnv exReq exEtys) (.is (.var .principal) "User") = .ok (.some (.prim (.bool true))) := by decide +kernel
+example : compile (litEnv exReq exEtys) (.is (.var .principal) "Doc") = .ok (.some (.prim (.bool false))) := by decide +kernel
+example : compile (litEnv exReq exEtys) (.is (.lit (.string "a")) "User") = .error .typeError := by decide +kernel
+example : ctype exReq exEs [] (litEnv exReq exEtys) (.is (.lit (.string "a")) "User") = .error .typeError := by decide +kernel
 
 /-- permit when exIf;  forbid when exOvf (errors) -/
 def pIf : Policy := { id := "q0", effect := .permit, condition := exIf, env := [] }
